@@ -229,3 +229,13 @@ def c12_10(ctx, r):
         r.check(not bad, f"{f.short} has no content-dependent refusal", key_of(f, "refusal in the sweep: " + (ctx.src(bad[0]).split("(")[0] if bad else "")), f.loc(bad[0]) if bad else f.loc(f.node),
                 f"`{ctx.src(bad[0])[:120] if bad else ''}` in {f.short}: the sweep every round starts with can now refuse a file; the file stays, so every later round stops at the same point and the submission "
                 "never reaches completion, forced or not", "reaches completion ... regardless of lost batches")
+
+
+@rule(P, "C12.11", "T13", "the all-done test looks at every job: jobs that can never be submitted (a dependency cycle) keep the submission open for forced completion", min_obligations=2)
+def c12_11(ctx, r):
+    """Scanning only the jobs that reached a batch makes `all done` true with never-submitted jobs left; the consistency assertion that follows
+    then fires under the cluster lock, the round dies with its marker in place, and the submission never completes - the cycle's jobs are
+    never reported missing."""
+    from .c03 import c03_4
+
+    c03_4(ctx, r)
